@@ -1,6 +1,7 @@
 import GrinVerif.Drv.Common
 import GrinVerif.Model.Pool
 import GrinVerif.Model.PoolNode
+import GrinVerif.Model.PoolTime
 /-! Driver glue for the `pool` domain (C14): the harness describes outputs, transactions, the
 head state and every pool operation; the model recomputes verdicts and pool contents, and
 evaluates the property's specification (`jointlyValidB`, `mineVerdict`) on its own state. -/
@@ -11,6 +12,9 @@ structure St where
   ctx : Ctx := {}
   pool : TxPool := {}
   txs : List (Nat × Tx) := []
+  /-- run `poolclock`: the Dandelion configuration and the current epoch (`Model/PoolTime.lean`) -/
+  dcfg : DCfg := {}
+  tep : TEpoch := {}
 
 def stripPfx (s : String) (n : Nat) : String := (s.drop n).toString
 
@@ -100,6 +104,19 @@ def subTxOf (c : Ctx) (tx : Tx) (form : String) : Option SubTx :=
   | "v2u" => some (base (.featuresAndCommit (tx.ins.map fun i => (isCb i, i))) false)
   | _ => none
 
+def kvInt (args : List String) (k : String) : Option Int := (kv args k).bind String.toInt?
+
+/-- `ats=[t5:1700000000123,...]`: the `tx_at` (ms) of the stem entries, by registered transaction -/
+def parseClock (st : St) (s : String) : Option Clock :=
+  (listItems s).mapM fun it =>
+    match it.splitOn ":" with
+    | [t, a] => do
+      let i ← idOf t
+      let tx ← (st.txs.find? (·.1 == i)).map (·.2)
+      let a ← a.toInt?
+      pure (tx, a)
+    | _ => none
+
 def showObs (st : St) : String :=
   let c := st.ctx
   let u := utxoIds c
@@ -126,7 +143,9 @@ def handle (st : St) (args : List String) (impl : String) : St × Verdict :=
     match kvNat rest "max_pool", kvNat rest "max_stem", kvNat rest "mine_w", kvNat rest "fee_base",
           kvNat rest "max_tx_w", kvNat rest "max_block_w", kvNat rest "maturity" with
     | some maxPool, some maxStem, some mineW, some feeBase, some maxTxW, some maxBlockW, some maturity =>
-      ({ st with ctx := { st.ctx with cfg := { maxPool, maxStem, mineW, feeBase, maxTxW, maxBlockW, maturity } } }, .ok)
+      -- `nrd=0|1`: `global::is_nrd_enabled()` (absent: on, as every run but `nrd-disabled` has it)
+      let nrdEnabled := (kv rest "nrd").getD "1" == "1"
+      ({ st with ctx := { st.ctx with cfg := { maxPool, maxStem, mineW, feeBase, maxTxW, maxBlockW, maturity, nrdEnabled } } }, .ok)
     | _, _, _, _, _, _, _ => (st, .unknown)
   | "out" :: o :: rest =>
     match idOf o, kv rest "cb", kvNat rest "v" with
@@ -233,6 +252,62 @@ def handle (st : St) (args : List String) (impl : String) : St × Verdict :=
     match n.toNat? with
     | some n => ({ st with pool := st.pool.truncateCache n }, cmpModel "ok" impl)
     | none => (st, .unknown)
+  -- the clock-dependent glue (Model/PoolTime.lean); clock readings in milliseconds
+  | "dcfg" :: rest =>
+    match kvNat rest "epoch", kvNat rest "embargo", kvNat rest "agg", kvNat rest "prob", kv rest "always" with
+    | some epochSecs, some embargoSecs, some aggSecs, some stemProb, some a =>
+      ({ st with dcfg := { epochSecs, embargoSecs, aggSecs, stemProb, alwaysStemOurs := a == "1" }, tep := TEpoch.new }, .ok)
+    | _, _, _, _, _ => (st, .unknown)
+  | "tepoch_expired" :: rest =>
+    match kvInt rest "now" with
+    | some now => (st, cmpModel (toString (st.tep.isExpired st.dcfg now)) impl)
+    | none => (st, .unknown)
+  | "tepoch_next" :: rest =>
+    -- `next_epoch` at reading `now`; the draw is not observable: where the outcome depends on it
+    -- (0 < stem_probability < 100) the implementation's answer is adopted
+    match kvInt rest "now" with
+    | some now =>
+      let lo := st.tep.nextEpoch st.dcfg now 0 none
+      let hi := st.tep.nextEpoch st.dcfg now 99 none
+      if lo.isStem == hi.isStem then
+        ({ st with tep := lo }, cmpModel s!"stem={if lo.isStem then 1 else 0}" impl)
+      else
+        ({ st with tep := { lo with isStem := impl == "stem=1" } }, .ok)
+    | none => (st, .unknown)
+  | "tfluff_phase" :: rest =>
+    match kvInt rest "now", (kv rest "ats").bind (parseClock st) with
+    | some now, some m =>
+      let (p, r) := st.pool.fluffPhaseT st.ctx st.dcfg st.tep m now
+      ({ st with pool := p }, cmpModel (showRes r) impl)
+    | _, _ => (st, .unknown)
+  | "texpire" :: rest =>
+    -- the draw `gen_range(0, 31)` is not observable: the harness places entries outside the band,
+    -- both ends of the band must give the same pool
+    match kvInt rest "now", (kv rest "ats").bind (parseClock st) with
+    | some now, some m =>
+      let p0 := st.pool.expireEntriesT st.ctx st.dcfg m now 0
+      let p30 := st.pool.expireEntriesT st.ctx st.dcfg m now 30
+      if p0 == p30 then ({ st with pool := p0 }, cmpModel "ok" impl)
+      else (st, .diff "outcome-depends-on-the-draw")
+    | _, _ => (st, .unknown)
+  | "tmonitor" :: rest =>
+    -- one pass of the real monitor thread, all its readings within the second of `now`
+    match kvInt rest "now", (kv rest "ats").bind (parseClock st) with
+    | some now, some m =>
+      let i0 : PassIn := { nowF := now, nowE := now, nowN := now, rollEmbargo := 0, rollStem := 0 }
+      let i1 : PassIn := { i0 with rollEmbargo := 30, rollStem := 99 }
+      let (p0, e0) := st.pool.monitorPassT st.ctx st.dcfg st.tep m i0
+      let (p1, e1) := st.pool.monitorPassT st.ctx st.dcfg st.tep m i1
+      if p0 == p1 && e0 == e1 then
+        ({ st with pool := p0, tep := e0 },
+          cmpModel s!"stem={if e0.isStem then 1 else 0},expired={e0.isExpired st.dcfg now}" impl)
+      else (st, .diff "outcome-depends-on-the-draws")
+    | _, _ => (st, .unknown)
+  | "tblock_truncate" :: rest =>
+    match kvInt rest "now", kvNat rest "period", (kv rest "ats").bind (fun s => (listItems s).mapM String.toInt?) with
+    | some now, some period, some ats =>
+      ({ st with pool := st.pool.blockTruncate ats now period }, cmpModel "ok" impl)
+    | _, _, _ => (st, .unknown)
   | _ => (st, .unknown)
 
 end GV.Drv.PoolD
